@@ -143,6 +143,10 @@ func genC15(t *rapid.T) C15Pair {
 			"db__i__20060102-150405-00000000__G0.pb.gz", "db__i__20061302-150405-000000000__G0.pb.gz",
 			"db__i__20060102-150405-000000000.pb.gz", "db/i__x__20060102-150405-000000000__G0.pb.gz",
 			"db__i__20060102-150405-000000000__G0.pb.gz.tmp", "db__i__20060102-150405-000000000__G0.txt",
+			// a backup / another kind of file / a dotted extra item: the extension is not exactly "pb.gz"
+			"db__i__20060102-150405-000000000__G0.bak.pb.gz", "db__i__20060102-150405-000000000__G0.delta.pb.gz",
+			"db__i__20060102-150405-000000000__G0__V1.2.pb.gz", "db__i__20060102-150405-000000000__G0..pb.gz",
+			"db__i.x__20060102-150405-000000000__G0.pb.gz", ".db__i__20060102-150405-000000000__G0.pb.gz",
 			// well formed in every respect except a day that month does not have / a leap second / hour 24
 			"db__i__20230230-150405-000000000__G0.pb.gz", "db__i__20230229-000000-000000000__G0.pb.gz",
 			"db__i__20230431-235959-999999999__G0.pb.gz", "db__i__21000229-120000-000000000__G0.pb.gz",
@@ -241,6 +245,10 @@ func checkC15(c C15Pair, o *vcore.Obs) error {
 	if p, err := snapshot.ParseName(c.Junk); err == nil {
 		if p.Kind != snapshot.KindSnapshot || !strings.HasSuffix(c.Junk, "."+snapshot.DefaultExtension) {
 			return fmt.Errorf("non-snapshot file %q accepted: %+v", c.Junk, p)
+		}
+		if dot := strings.IndexByte(c.Junk, '.'); c.Junk[dot:] != "."+snapshot.DefaultExtension {
+			// the extension of a file is everything from its first dot (names are built from dot-free items)
+			return fmt.Errorf("file %q accepted as a snapshot although its extension %q is not exactly %q: %+v", c.Junk, c.Junk[dot+1:], snapshot.DefaultExtension, p)
 		}
 		if len(strings.Split(strings.TrimSuffix(c.Junk, "."+snapshot.DefaultExtension), "__")) < 4 {
 			return fmt.Errorf("file %q with too few parts accepted", c.Junk)
